@@ -21,6 +21,7 @@ struct R : Runner {
 		cfg = std::to_string(N) + "," + std::to_string(RB) + "," + (B == Behavior::Saturating ? "1" : "0") + "," + std::to_string(8 * sizeof(BT));
 		if (g_group == "arith") { ops1 = {OP_neg}; ops2 = {OP_mul, OP_div, OP_add, OP_sub}; }
 		if (g_group == "muldiv") { ops1 = {OP_neg}; ops2 = {OP_mul, OP_div}; }
+		if (g_group == "addsub") { ops2 = {OP_add, OP_sub}; }
 		if (g_group == "cmp") { ops1 = {}; ops2 = {OP_eq, OP_ne, OP_lt, OP_le, OP_gt, OP_ge}; }
 		if (g_group == "conv") { ops1 = {OP_to_f64, OP_to_f64_rt}; }
 	}
@@ -53,12 +54,14 @@ struct R : Runner {
 };
 
 template <unsigned N, unsigned RB, typename BT> static void reg(bool sm) {
+	// add/sub acceptance is expensive (certified enclosures): enumerate only the cheaper small configurations
+	if (g_group == "addsub" && sm && N >= 8 && RB > 2) return;
 	g_runners.emplace_back(new R<N, RB, BT, Behavior::Saturating>(sm));
 	g_runners.emplace_back(new R<N, RB, BT, Behavior::Wrapping>(sm));
 }
 
 int main(int argc, char** argv) {
-	for (int i = 1; i + 1 < argc; ++i) if (std::string(argv[i]) == "--group") g_group = argv[i + 1];
+	g_group = parse_group(argc, argv, g_group);
 #ifndef NO_SMALL
 	reg<4, 1, uint8_t>(true); reg<4, 2, uint8_t>(true); reg<5, 2, uint8_t>(true); reg<6, 0, uint8_t>(true); reg<6, 2, uint8_t>(true); reg<6, 4, uint8_t>(true);
 	reg<7, 3, uint8_t>(true); reg<8, 0, uint8_t>(true); reg<8, 2, uint8_t>(true); reg<8, 3, uint8_t>(true); reg<8, 4, uint8_t>(true); reg<8, 6, uint8_t>(true);
